@@ -202,6 +202,7 @@ func newEnv(seed uint64, p *Plan, out *Outcome) *env {
 	}
 	muxwireName.Store(&name)
 	out.Config = p.label()
+	muxRegReset(0)
 	curSim.Store(s)
 	return e
 }
